@@ -20,6 +20,11 @@ def run(F, X, rep):
         return
     H.n1_continue_paths_effect_free(C, rep, "C13-N1")
     H.n2_forward_classification(C, rep, "C13-N2")
+    # N3: what makes metadata "usable" is the extractor's gates (hash, signature, amount table): cited from C10
+    import rules_ext as E
+    E.g_hash_gate(C, rep, "C13-N3")
+    E.s_signature_gate(C, rep, "C13-N3")
+    E.a_amount_table(C, rep, "C13-N3")
     H.r1_rewrite(C, rep, "C13-R1")
     H.r2_order_preserving_removal(C, rep, "C13-R2")
     bodies = p_c18.tlv_bodies(F)
